@@ -22,7 +22,7 @@ def gen(c, binary):
 def run(c):
     c.rule = ("each case is one source text: 70% from a typed generator that writes surface syntax directly (depth <= 6, every "
               "operator, aggregate and function, matching modifiers, @/offset modifiers, subqueries, StatsHouse extensions "
-              "`offset [..]`, `@what=`, `tag:$var`, keywords as metric and label names, varied spacing/case/quoting, string literals / "
+              "`offset [..]`, `@what=`, `tag:$var`, `@` timestamps with 0-6 random fraction digits, keywords as metric and label names, varied spacing/case/quoting, string literals / "
               "matcher values / function string arguments in all three quote styles with control bytes, DEL, non-printable and "
               "astral runes and invalid UTF-8 given raw at the start, middle and END of the string (what %q prints as a numeric escape), "
               "un-parenthesised operator chains), 15% a valid source with 1-2 token mutations, 15% arbitrary strings "
@@ -44,7 +44,7 @@ def run(c):
     binary = c.go_build(HARNESS)
     if binary:
         gen(c, binary)
-    c.prove("SH.Props.C28", extra_files=["SH/Model/PromSyntax.lean", "SH/Model/PromLex.lean", "SH/Lemmas/PromSyntaxSound.lean", "SH/Lemmas/PromLexNum.lean", "SH/Gen/C28.lean"])
+    c.prove("SH.Props.C28", extra_files=["SH/Model/PromSyntax.lean", "SH/Model/PromLex.lean", "SH/Lemmas/PromSyntaxSound.lean", "SH/Lemmas/PromLexNum.lean", "SH/Lemmas/PromLexStr.lean", "SH/Lemmas/PromLexAllSteps.lean", "SH/Model/PromLexAll.lean", "SH/Gen/C28.lean"])
     drv = c.driver(DRIVER)
     if binary and drv:
         rc, out = c.go_run(binary, ["-mode=corpus", f"-arg={CORPUS}"])
@@ -86,12 +86,16 @@ META = {
              "duration_bounds_unprintable - n = 0 and n = 9223372037 have no literal although `0s400ms` / `9223372036s800ms` "
              "parse to them; number_literal_roundtrip - scanNumber consumes exactly any text of the shapes fmt.Sprint(float64) "
              "writes (digits, .digits, e+-dd) and the token's value is x under the explicit hypothesis number(format x) = x; "
-             "inf_nan_tokens - Inf/NaN are words the keyword table makes NUMBER tokens; lexString_renderQ / string_token_roundtrip "
+             "inf_nan_tokens - Inf/NaN are words the keyword table makes NUMBER tokens; at_timestamp_roundtrip - the `%.3f` seconds "
+             "the printer writes for k ms are cut as one NUMBER token and the decimal -> nearest-millisecond conversion gives "
+             "exactly k, for every k, hypothesis-free (tie: op atms compares that conversion with "
+             "timestamp.FromFloatSeconds(number(text)) on every `@` literal that is not exactly half a millisecond); lexString_renderQ / string_token_roundtrip "
              "- a %q body is scanned to exactly its closing quote, value back under the explicit hypothesis unquote(quote v) = v; "
              "extra_rune_breaks_last_escape is the seeded lexer bug as a `decide` witness. `decide` witnesses show the printer "
              "before the fix violated the property in six ways. Ties: per generated source the real ParseExpr (accept/reject, "
              "tree), the real String() (token sequence), and the real lexer on every string, number, duration and word token "
-             "(ops lexstr, lexnum, lexdur, lexword), parseDuration on every duration literal (pdur), `%ds` (durtext) are replayed "
+             "(ops lexstr, lexnum, lexdur, lexword), parseDuration on every duration literal (pdur), `%ds` (durtext), `@` "
+             "seconds -> ms (atms) are replayed "
              "on the compiled models; the hypotheses tokOk (line `lex`) and wf (line `wf`) are evaluated by the driver on every "
              "real token stream / returned tree."),
     "note": ("Partial: the two library contracts strconv.Quote/strutil.Unquote and fmt.Sprint(float64)/number (ParseInt, "
